@@ -46,7 +46,8 @@ def bump(idgen: Any, bumps: dict[str, int]) -> None:
             idgen._ids[k] = int(v)  # pylint: disable=protected-access
 
 
-GARBAGE_KINDS = ("sym", "fun", "qty", "qty1f", "qty1", "qty0f", "vec", "cs", "calc", "conv", "solve", "float_arith")
+GARBAGE_KINDS = ("sym", "fun", "qty", "qty1f", "qty1", "qty0f", "vec", "cs", "calc", "conv", "solve", "float_arith",
+    "const_copy", "const_copy_dim", "clone", "common_symbols")
 
 
 def garbage(spec: Any) -> None:
@@ -54,7 +55,7 @@ def garbage(spec: Any) -> None:
     or an int (that many mixed objects)."""
     # pylint: disable=too-many-branches
     if isinstance(spec, int):
-        spec = [GARBAGE_KINDS[i % 9] for i in range(spec)]
+        spec = [GARBAGE_KINDS[i % 9] for i in range(spec)]  # (first nine kinds: the meaning of old integer specs is kept)
     if not spec:
         return
     import sympy
@@ -103,6 +104,27 @@ def _garbage_one(i: int, kind: str, keep: list[Any]) -> None:
             keep.append(sympy.expand((x + 1)**3))
         elif kind == "float_arith":
             keep.append(Quantity(1.0 * units.meter) if i % 2 else Quantity(2.5))
+        elif kind == "const_copy":
+            from symplyphysics import quantities
+            keep.append(Quantity(quantities.speed_of_light))
+            keep.append(Quantity(quantities.boltzmann_constant * 2))
+        elif kind == "const_copy_dim":
+            from symplyphysics import dimensionless, quantities
+            for name in ("speed_of_light", "boltzmann_constant", "planck", "elementary_charge", "molar_gas_constant",
+                    "vacuum_permittivity", "gravitational_constant", "acceleration_due_to_gravity"):
+                c = getattr(quantities, name, None)
+                if c is not None:
+                    keep.append(Quantity(c, dimension=dimensionless))
+        elif kind == "clone":
+            from symplyphysics import clone_as_function, clone_as_symbol, symbols
+            keep.append(clone_as_symbol(symbols.mass, subscript="1"))
+            keep.append(clone_as_function(symbols.speed, [symbols.time]))
+            keep.append(clone_as_symbol(symbols.temperature, display_symbol="T_x", positive=False))
+        elif kind == "common_symbols":
+            from symplyphysics import symbols
+            e = sympy.Eq(symbols.force, symbols.mass * symbols.acceleration)
+            keep.append(sympy.solve(e, symbols.mass))
+            keep.append((symbols.mass * symbols.speed**2 / 2).subs(symbols.mass, 3).diff(symbols.speed))
 
 
 class _Hang(BaseException):
